@@ -522,9 +522,17 @@ def dbg_shape(col, pid, rng, n, edges):
                 if named:
                     reconf = {"nodes": {ids[i]: {"priority": rng.randint(0, 4)} for i in named}}
                     col.counters["c13_runs_after_config_reload"] += 1
+            copied_ = rng.random() < 0.35 and not any(a[0] == "g" for nd_ in spec["nodes"] for a in nd_["args"])  # (constant objects cannot be copied)
+            if copied_:
+                col.counters["c13_runs_on_a_deep_copy"] += 1
             for flag in (False, True):
                 cfg.RUN_DEBUG_NODES = flag
                 d, _e, _p = build_legal(col, pid, spec, plain, rp)
+                if copied_:
+                    # the object that is run is a deep copy of the DAG (the same rules apply to it)
+                    import copy as _copy
+
+                    d = _copy.deepcopy(d)
                 if reconf:
                     d.config_from_dict(reconf)
                 args = [Sym("arg", 5)]
